@@ -161,3 +161,30 @@ Print Assumptions C04_arnoldi_relation.
 Print Assumptions C04_cycle_residual_is_small_residual.
 Print Assumptions C04_cycle_minimises_over_krylov_space.
 Print Assumptions C04_mgs_basis_is_orthonormal.
+
+From QVT Require Import ArnoldiExact.
+Section X.
+Variable C : CRing.
+Notation qmat := (qmat C).
+(* a cycle whose small system is solved exactly (lucky breakdown: the last row of H vanishes and H y = beta e1 is square; the cycle of full
+   dimension) returns the exact solution of A x = b -- no orthonormality needed *)
+Theorem C04_exact_small_solution_solves_the_system N m (A V H b x0 y e1b : qmat) :
+  (forall j l, j < m -> l < N -> qmul (V l (S j)) (H (S j) j) = qsub (qmm N A V l j) (sumQ (S j) (fun i => qmul (V l i) (H i j)))) ->
+  (forall i j, j < m -> S j < i -> H i j = qzero) ->
+  meq N 1 (qmsub b (qmm N A x0)) (qmm (S m) V e1b) ->
+  meq (S m) 1 (qmm m H y) e1b -> meq N 1 (qmm N A (qmadd x0 (qmm m V y))) b.
+Proof. exact (small_solution_is_exact_solution C N m A V H b x0 y e1b). Qed.
+(* at a breakdown the Krylov space is invariant (A V_m = V_m H_m) and the square part of H is injective whenever A is: the small system then
+   determines y *)
+Theorem C04_breakdown_square_part_is_injective N m (A V H Ainv z : qmat) :
+  (forall j l, j < m -> l < N -> qmul (V l (S j)) (H (S j) j) = qsub (qmm N A V l j) (sumQ (S j) (fun i => qmul (V l i) (H i j)))) ->
+  (forall i j, j < m -> S j < i -> H i j = qzero) -> (forall j, j < m -> H m j = qzero) ->
+  meq m m (qmm N (qherm V) V) qmid -> meq N N (qmm N Ainv A) qmid ->
+  meq N m (qmm N A V) (qmm m V H) /\ (meq m 1 (qmm m H z) (fun _ _ => qzero) -> meq m 1 z (fun _ _ => qzero)).
+Proof.
+  intros L Hs Br Or Ai. split.
+  - exact (breakdown_invariant_subspace C N m A V H L Hs Br).
+  - exact (breakdown_square_part_injective C N m A V H L Hs Br Or Ainv Ai z).
+Qed.
+End X.
+Print Assumptions C04_exact_small_solution_solves_the_system.
